@@ -24,7 +24,7 @@ Proof. intros. apply history_projection. reflexivity. Qed.
 Print Assumptions C12_fresh_run.
 
 Example C12_nonvacuous :
-  let tc := ValueM.mktc 2 3 4 5 in
+  let tc := ValueM.mktc 2 3 4 5 [] in
   let P := mkparams tc (fun _ => 1%N) in
   let t := TAlt [TScope (TConst 1 DDec); TScope (TConst 2 DDec)] in
   match build_program tc t with
